@@ -484,6 +484,7 @@ func main() {
 // ---------------------------------------------------------------- generators
 
 type dgen struct {
+	inEcho bool
 	pushed bool // a push has been issued: the buffer is allocated from then on
 	rng    *Rng
 	ops    []Sx
@@ -491,7 +492,30 @@ type dgen struct {
 	next   int64
 }
 
-func (g *dgen) add(op Sx) { g.ops = append(g.ops, op) }
+// add appends a call.  Around a mutating call, now and then the same read (Front / Back / At i)
+// is issued right before and right after it: an answer remembered across the mutation shows there.
+func (g *dgen) add(op Sx) {
+	c := op.At(0).AsInt()
+	mutating := c <= 3 || c >= 7
+	if mutating && !g.inEcho && g.rng.Chance(1, 5) {
+		var rd Sx
+		switch g.rng.Intn(4) {
+		case 0:
+			rd = List(Int(4))
+		case 1:
+			rd = List(Int(5))
+		default:
+			rd = List(Int(6), Int(g.index()))
+		}
+		g.ops = append(g.ops, rd, op, rd)
+		echoes++
+		return
+	}
+	g.ops = append(g.ops, op)
+}
+
+var echoes int
+
 func (g *dgen) push() {
 	g.pushed = true
 	g.next++
@@ -816,7 +840,7 @@ func genFifoOps(rng *Rng, tids int) []Sx {
 	var ops []Sx
 	next := int64(0)
 	n := 0
-	mk := func(code int, arg Sx) {
+	mk1 := func(code int, arg Sx) {
 		if tids > 0 {
 			ops = append(ops, List(Int(int64(rng.Intn(tids))), Int(int64(code)), arg))
 		} else if code == 0 {
@@ -824,6 +848,18 @@ func genFifoOps(rng *Rng, tids int) []Sx {
 		} else {
 			ops = append(ops, List(Int(int64(code))))
 		}
+	}
+	// around a mutating call, now and then the same read (Front / Len) right before and right after
+	mk := func(code int, arg Sx) {
+		if (code == 0 || code == 1) && rng.Chance(1, 6) {
+			rd := 2 + rng.Intn(2)
+			mk1(rd, List())
+			mk1(code, arg)
+			mk1(rd, List())
+			echoes++
+			return
+		}
+		mk1(code, arg)
 	}
 	push := func() {
 		next++
@@ -870,7 +906,16 @@ func genFifoOps(rng *Rng, tids int) []Sx {
 			for k := rng.Intn(20); k > 0 && n > 0; k-- {
 				pop()
 			}
+			echo := rng.Bool() // the same read right before and right after Init()
+			rd := 2 + rng.Intn(2)
+			if echo {
+				mk1(rd, List())
+			}
 			ops = append(ops, List(Int(4)))
+			if echo {
+				mk1(rd, List())
+				echoes++
+			}
 			n = 0
 			for k := 1 + rng.Intn(30); k > 0; k-- {
 				push()
@@ -993,6 +1038,7 @@ func gen(a Args, out *Out) {
 		out.Case("concurrent-stress", P+C > 2, in, run(in))
 		out.CountN("stress:enqueued", P*n)
 	}
+	out.CountN("read repeated right before and after a mutating call", echoes)
 	if inconclusive > 0 {
 		out.CountN("watchdog:inconclusive(expired, did not reproduce on re-run)", inconclusive)
 		out.Note("%d watchdog expiries did not reproduce on an immediate re-run with a longer limit: classified inconclusive, the re-run's observations were used", inconclusive)
